@@ -19,3 +19,5 @@ func verifSignalReady(chan struct{}) bool { return false }
 func verifTick(*Engine) <-chan time.Time { return nil }
 
 func verifTickPending(*Engine) bool { return false }
+
+func verifReady(string, ...bool) bool { return false }
